@@ -110,6 +110,12 @@ def join(a, b):
             return b.w(maybe_empty=True, const=None, litconst=None)
         if fb.get('elts') == [] and fa.get('elts') != [] and not fb.get('kw'):
             return a.w(maybe_empty=True, const=None, litconst=None)
+    if fa.get('ty') == fb.get('ty') == 'dict':
+        # an empty dict / Counter() joined with a filled one: the filled one, possibly empty
+        if fa.get('empty_init') and not fb.get('empty_init'):
+            return b.w(maybe_empty=True)
+        if fb.get('empty_init') and not fa.get('empty_init'):
+            return a.w(maybe_empty=True)
     if fa.get('ty') == fb.get('ty') == 'set':
         if fa.get('empty_init') and not fb.get('empty_init'):
             return b.w(maybe_empty=True)
@@ -263,6 +269,7 @@ class Interp:
         self.values = {}  # id(node) -> AV joined over all evaluations
         self.last = {}  # id(node) -> AV of the most recent evaluation
         self._sx_cache = {}
+        self.cur_stmt = None
         self._sx_names = {}
         self.node_fn = {}  # id(node) -> FunctionInfo in which it was evaluated
         self.events = []
@@ -543,6 +550,7 @@ class Interp:
         return st
 
     def x_AugAssign(self, s, frame, st):
+        self.cur_stmt = s
         cur = self.eval(s.target, frame, st)
         r = self.eval(s.value, frame, st)
         v = self.model.binop(self, st, s.op, cur, r, s)
@@ -747,10 +755,14 @@ class Interp:
             if v is None:
                 v = TOP
             if type(node) in _SX_NODES and v.const is None and v.ty in _SX_TYS:
-                if not (isinstance(node, ast.Attribute) and v.sx is not None and (self.last.get(id(node.value)) or TOP).ty == 'obj'):
+                if not (isinstance(node, ast.Attribute) and v.sx is not None and self._is_data_attr(node, st)):
                     v = v.w(sx=self.sx_build(node))
         self.values_store(node, v, frame)
         return v
+
+    def _is_data_attr(self, node, st):
+        b = self.last.get(id(node.value))
+        return b is not None and b.ty == 'obj' and b.oid in st.heap and node.attr in st.heap[b.oid]
 
     # ---- symbolic expression text: alias-resilient identity of values (names bound to an expression stand for that expression)
     def sx(self, node):
@@ -1127,7 +1139,7 @@ class Interp:
 
     def e_DictComp(self, n, frame, st):
         (k, v), cst, me = self._comp(n, frame, st, [n.key, n.value])
-        return AV(ty='dict', elem=v, keyelem=k, fresh=True, deps=(k.deps or frozenset()) | (v.deps or frozenset()))
+        return AV(ty='dict', elem=v, keyelem=k, fresh=True, overwrite=True, deps=(k.deps or frozenset()) | (v.deps or frozenset()))
 
     def e_Yield(self, n, frame, st):
         if n.value is not None:
